@@ -72,6 +72,11 @@ func stringsStatefulOracle(c *Ctx) {
 		{`strings := import("strings"); seen := []; i := strings.IndexFunc("a\xffb", func(c) { seen = append(seen, int(c)); return false }); return [i, seen]`, "[-1, [97, 65533, 98]]"},
 		{`strings := import("strings"); n := 0; r := strings.Map(func(c) { n++; return c }, "x\ufffdy"); return [len(r), n]`, "[5, 3]"},
 		{`strings := import("strings"); n := 0; r := strings.TrimFunc("\ufffdab\ufffd", func(c) { n++; return c == '\ufffd' }); return [r, n]`, `["ab", 4]`},
+		// the callback's result is used as a truth value, as `if f(c)` in a script would use it
+		{`strings := import("strings"); return strings.FieldsFunc("a,b,c", func(c) { return c == ',' ? 1 : 0 })`, `["a", "b", "c"]`},
+		{`strings := import("strings"); return strings.FieldsFunc("a b", func(c) { return c == ' ' ? "sep" : "" })`, `["a", "b"]`},
+		{`strings := import("strings"); return strings.TrimFunc("xxabxx", func(c) { return c == 'x' ? [0] : undefined })`, `ab`},
+		{`strings := import("strings"); return [strings.IndexFunc("abc", func(c) { return c == 'c' ? 2.5 : 0 }), strings.LastIndexFunc("abca", func(c) { return c == 'a' ? "y" : "" })]`, `[2, 3]`},
 	} {
 		c.dist["oracle:strings-stateful"]++
 		bc, err := ugo.Compile([]byte(fx.src), ugo.CompilerOptions{ModuleMap: mm})
